@@ -165,7 +165,55 @@ def _stack_ref_mov(prog, run, rule, fi, f):
         run.ob(rule, fi.qual, "per-setup record stack", None, "vstack((ref, mov)) not found", file=f)
 
 
-WHICH = {"merge": merge, "flatten": flatten, "pre": pre, "ssi_ms": ssi_ms}
+def reflists(prog, run, rule):
+    """the reference lists handed to every later split / merge are the lists AS GIVEN by the user (listed order is the only thing that
+    pairs reference k of one setup with reference k of another): every store into `self.ref_ind` is the constructor argument or an
+    order-preserving copy of it, and every split is called with that attribute (or the argument itself)"""
+    ORDER_LOSING = ("sorted", "set", "numpy.sort", "numpy.unique", "numpy.argsort", "frozenset", "reversed")
+    COPIES = ("list", "tuple", "copy.deepcopy", "copy.copy", "numpy.array", "numpy.asarray")
+    n = 0
+    for cq in ("setup.multi.MultiSetup_PreGER", "setup.multi.MultiSetup_PoSER"):
+        try:
+            ci = prog.cls(cq)
+        except Exception:
+            continue
+        f = rel(prog.mods[ci.mod].path)
+        for m in ci.methods.values():
+            params = set(astq.params_of(m.node)[0])
+            for st in ast.walk(m.node):
+                if isinstance(st, ast.Assign) and any(isinstance(t, ast.Attribute) and astq.src(t) == "self.ref_ind" for t in st.targets):
+                    n += 1
+                    x = astq.expr_at(m, st, st.value)
+                    calls = [astq.callee_name(prog, m, c) for c in ast.walk(x) if isinstance(c, ast.Call)]
+                    meths = [c.func.attr for c in ast.walk(x) if isinstance(c, ast.Call) and isinstance(c.func, ast.Attribute)]
+                    losing = [c for c in calls if c in ORDER_LOSING] + [a for a in meths if a in ("sort",)]
+                    base_ok = any(isinstance(z, ast.Name) and z.id in params for z in ast.walk(x)) or "_initial_ref_ind" in astq.src(x)
+                    plain = isinstance(x, (ast.Name, ast.Attribute)) or all(c in COPIES or c.startswith(".") for c in calls)
+                    ok = False if losing else (True if (base_ok and plain) else None)
+                    run.ob(rule, m.qual, "reference lists are stored as given (listed order kept)", ok,
+                           f"`self.ref_ind = {astq.src(x, 70)}`" + (f" passes the lists through {losing}: the listed order (the pairing of references across setups) is lost for every later split" if losing else ""),
+                           witness=astq.src(x, 70), file=f, node=st)
+            for c, r in prog.calls_in(m):
+                if getattr(r, "node", None) is not None and r.node.name == "pre_multisetup":
+                    n += 1
+                    b, errs = astq.bind_args(r.node, c)
+                    second = astq.params_of(r.node)[0][1]
+                    a = b.get(second)
+                    x = astq.expr_at(m, c, a) if a is not None else None
+                    txt = astq.src(x, 70) if x is not None else None
+                    ok = None
+                    if x is not None:
+                        calls = [astq.callee_name(prog, m, z) for z in ast.walk(x) if isinstance(z, ast.Call)]
+                        if any(z in ORDER_LOSING for z in calls):
+                            ok = False
+                        elif txt in ("self.ref_ind", "self._initial_ref_ind") or (isinstance(x, ast.Name) and x.id in params) or "copy.deepcopy(" in txt:
+                            ok = True
+                    run.ob(rule, m.qual, "the split is called with the reference lists as given", ok, f"`pre_multisetup(.., {txt})`", witness=str(txt), file=f, node=c)
+    if not n:
+        run.ob(rule, "pyoma2.setup.multi", "reference lists", None, "no store of self.ref_ind / call of pre_multisetup found")
+
+
+WHICH = {"merge": merge, "flatten": flatten, "pre": pre, "ssi_ms": ssi_ms, "reflists": reflists}
 
 
 def order_obligations(prog, run, rule, which):
